@@ -1,5 +1,6 @@
 import Bluebell.Convert
 import Bluebell.Lemmas.AknWF
+import Bluebell.Lemmas.FlatDoc
 /-!
 # C01 — conversion is total
 
@@ -90,5 +91,40 @@ theorem C01_parser_terminates (inp : Array Char) (root : String) (h : (aknExec.l
 theorem C01_roots_are_rules :
     (sixRoots ++ ["debate", "hier_element", "attachments"]).all (fun r => (aknExec.lookup r).isSome) = true := by
   decide +kernel
+
+/-! ## Acceptance, proved for an infinite class of texts: flat plain-text documents
+
+`AtLines inp 0 lines`: the text consists of the non-empty lines `lines`, each made of plain characters
+(no `* / _ {` backslash), each starting with a character that no keyword, marker or container rule can
+start with (`plainStart`, decided on the regenerated grammar), separated by single newlines and ending
+with one.  For every such text — any number of lines, any length — the roots `doc`, `statement`,
+`debateReport`, `act` and `bill` accept it and consume all of it: whenever the interpreter answers it
+answers "accepted" (`flat_doc_never_refused`), and by `C01_parser_terminates` it always answers.
+The proof composes the big-step rules derived from the interpreter (`Lemmas/PegLim.lean`) with the
+first-character analysis and termination; it goes through preface?/preamble?/body-marker?/the body
+loop (guards `!conclusions_marker !attachment_marker`, `hier_block_indent`, `hier_block_element`,
+`block_element`, `block_elements`, `line`, `inline+`, `eol`) and conclusions?/attachments? at the end. -/
+theorem C01_flat_plain_text_accepted (inp : Array Char) (root : String)
+    (hroot : root ∈ ["doc", "statement", "debateReport", "act", "bill"])
+    (lines : List (List Char)) (h : AtLines inp 0 lines) :
+    (∃ n, (eval aknExec inp n (.ref root) 0).done) ∧
+    ∀ n, (eval aknExec inp n (.ref root) 0).done → ∃ t, eval aknExec inp n (.ref root) 0 = .ok t ∧ t.stop = inp.size := by
+  refine ⟨?_, fun n hd => flat_doc_never_refused root hroot lines h n hd⟩
+  obtain ⟨t, ⟨n0, h0⟩, _⟩ := flat_doc_accepted (inp := inp) root hroot lines h
+  exact ⟨n0, by rw [h0 n0 (Nat.le_refl _)]; trivial⟩
+
+/-- the characters a line may start with: here, lowercase letters, digits and some punctuation -/
+theorem C01_plain_starts :
+    ("abcdefghijklmnopqrstuvwxyz0123456789(\"'.,;:-é§".toList.all plainStart) = true := by decide +kernel
+
+/-- non-vacuity: a three-line text of that shape -/
+example : AtLines "the first line\n2. second (line), with punctuation\nlast one\n".toList.toArray 0
+    ["the first line".toList, "2. second (line), with punctuation".toList, "last one".toList] := by
+  have hs := C01_plain_starts
+  simp only [List.all_eq_true] at hs
+  refine ⟨⟨'t', "he first line".toList, rfl, hs _ (by decide)⟩, by simp [AtPlain, isPlain, clsMatch, overrideNeg, overrideCls], ?_⟩
+  refine ⟨⟨'2', ". second (line), with punctuation".toList, rfl, hs _ (by decide)⟩, by simp [AtPlain, isPlain, clsMatch, overrideNeg, overrideCls], ?_⟩
+  refine ⟨⟨'l', "ast one".toList, rfl, hs _ (by decide)⟩, by simp [AtPlain, isPlain, clsMatch, overrideNeg, overrideCls], ?_⟩
+  simp [AtLines]
 
 end Bluebell
